@@ -126,8 +126,20 @@ thread_local! {
   static SERIAL: RefCell<u32> = const { RefCell::new(0) };
 }
 
+/// Upper bound on events per session. Real sessions of the generated programs stay far below it; unbounded recursion
+/// inside pie (e.g. validation walking a dependency cycle that was not rejected) reaches it long before the stack ends,
+/// and the resulting panic is reported as a step-bound abort instead of killing the process.
+pub const MAX_EVENTS_PER_SESSION: usize = 20_000;
+
 #[inline]
-pub fn push(ev: Ev) { LOG.with(|l| l.borrow_mut().push(ev)); }
+pub fn push(ev: Ev) {
+  let over = LOG.with(|l| { let mut l = l.borrow_mut(); l.push(ev); l.len() > MAX_EVENTS_PER_SESSION });
+  if over {
+    // make room so that the unwinding code can keep logging, then raise the alarm
+    LOG.with(|l| l.borrow_mut().truncate(MAX_EVENTS_PER_SESSION / 2));
+    panic!("{}", crate::cell::STEP_BOUND_MARKER);
+  }
+}
 
 pub fn len() -> usize { LOG.with(|l| l.borrow().len()) }
 
